@@ -26,7 +26,8 @@ LINE = 7
 class Layout:
     """columns: list of 'in' / 'exp' (header columns); sig_order: header column -> signal index."""
 
-    def __init__(self, name, columns, sig_of_col, widths=None, note="", hidden_exp=0):
+    def __init__(self, name, columns, sig_of_col, widths=None, note="", hidden_exp=0, hidden_in_at=()):
+        self.hidden_in_at = tuple(hidden_in_at)   # signal-list positions of inputs the header omits (EntryIndex::Default)
         self.name = name
         self.columns = columns
         self.sig_of_col = sig_of_col
@@ -43,6 +44,7 @@ LAYOUTS_QUICK = [
     Layout("in in exp", ["in", "in", "exp"], [0, 1, 2]),
     Layout("header order differs from signal order", ["in", "in", "exp"], [1, 0, 2]),
     Layout("exp in (output first in the header, input first in the signal list)", ["exp", "in"], [1, 0]),
+    Layout("in exp with an omitted input between them in the signal list", ["in", "exp"], [0, 2], hidden_in_at=(1,)),
 ]
 LAYOUTS_THOROUGH = [
     Layout("exp in in", ["exp", "in", "in"], [2, 0, 1]),
@@ -131,16 +133,18 @@ def run_layout(O, layout, K, in_kinds=("Number", "X", "Z", "C"), exp_kinds=("Num
     fn = make_harness_new(K, F("DataRowIteratorTestData", "prev") if arbitrary_prev else None)
     eng.models["StmtIterator::new"] = lambda ctx: ctx.ret(Node(fresh_root("stmtiter"), ty=ctx.dest_ty))
     n = layout.n
-    nsig = n
+    hin = tuple(getattr(layout, "hidden_in_at", ()))
+    nsig = n + len(hin)
     nhid = getattr(layout, "hidden_exp", 0)
+    # inputs in signal-list order: ("col", column) for header columns, ("hid", signal index) for omitted inputs
+    in_order = [x[1:] for x in sorted([(layout.sig_of_col[c], "col", c) for c in layout.input_cols] + [(s_, "hid", s_) for s_ in hin])]
     handles = {}
 
     def setup(eng_, st, fr):
         me = eng_.deref(fr.locals[1])
         sigs = []
         for s in range(nsig):
-            col = layout.sig_of_col.index(s)
-            if layout.columns[col] == "in":
+            if s in hin or layout.columns[layout.sig_of_col.index(s)] == "in":
                 typ = build.enum_val(eng_, "SignalType", "Input", [build.sym_enum("def%d" % s, "value::InputValue")])
             else:
                 typ = build.enum_val(eng_, "SignalType", "Output", [])
@@ -148,8 +152,8 @@ def run_layout(O, layout, K, in_kinds=("Number", "X", "Z", "C"), exp_kinds=("Num
         for h in range(nhid):
             sigs.append(build.struct([Node("name%d" % (nsig + h), ty="String"), Node("bits%d" % (nsig + h), ty="usize"),
                                       build.enum_val(eng_, "SignalType", "Output", [])], "Signal"))
-        ii = [build.enum_val(eng_, "EntryIndex", "Entry", [build.usize(c), build.usize(layout.sig_of_col[c])])
-              for c in layout.input_cols]
+        ii = [build.enum_val(eng_, "EntryIndex", "Entry", [build.usize(x), build.usize(layout.sig_of_col[x])]) if k_ == "col"
+              else build.enum_val(eng_, "EntryIndex", "Default", [build.usize(x)]) for k_, x in in_order]
         ei = [build.enum_val(eng_, "EntryIndex", "Entry", [build.usize(c), build.usize(layout.sig_of_col[c])])
               for c in layout.exp_cols]
         ei += [build.enum_val(eng_, "EntryIndex", "Default", [build.usize(nsig + h)]) for h in range(nhid)]
@@ -185,7 +189,7 @@ def run_layout(O, layout, K, in_kinds=("Number", "X", "Z", "C"), exp_kinds=("Num
     # initial-state terms
     tags = [z3.BitVec("e%d.tag" % c, 64) for c in range(n)]
     vals = [z3.BitVec("e%d#Number.0" % c, 64) for c in range(n)]
-    bits = [z3.BitVec("bits%d" % s, 64) for s in range(nsig)]
+    bits = [z3.BitVec("bits%d" % s, 64) for s in range(nsig + nhid)]
     KIND = {m.vidx("DataEntry", k): k[0] if k != "Number" else "N" for k in ("Number", "X", "Z", "C")}
     shapes = set()
     for p in paths:
@@ -252,14 +256,23 @@ def run_layout(O, layout, K, in_kinds=("Number", "X", "Z", "C"), exp_kinds=("Num
             claims.append(upd if checked else z3.Not(upd))
             claims.append(eng.scalar(eng.field(row, F("EvaluatedRow", "line"), "usize")) == bv64(LINE))
             ins = vec_slice(eng, eng.field(row, F("EvaluatedRow", "inputs")))
-            claims.append(eng.length(ins) == bv64(len(layout.input_cols)))
-            for j, c in enumerate(layout.input_cols):
+            claims.append(eng.length(ins) == bv64(len(in_order)))
+            for j, (k_, c) in enumerate(in_order):
                 ent = eng.elem(ins, bv64(j))
                 v = eng.field(ent, F("InputEntry", "value"))
                 vt = eng.tag_of(v, None)
                 vv = eng.scalar(eng.field(eng.downcast(v, "Value"), 0, "i64"))
-                b = bits[layout.sig_of_col[c]]
                 T_V, T_Z = bv64(m.vidx("InputValue", "Value")), bv64(m.vidx("InputValue", "Z"))
+                if k_ == "hid":
+                    # an input the header omits: its default, as given, on every row, never flagged as changed
+                    dt, dv = z3.BitVec("def%d.tag" % c, 64), z3.BitVec("def%d#Value.0" % c, 64)
+                    claims.append(z3.And(vt == dt, z3.Implies(dt == T_V, vv == dv),
+                                         z3.Not(eng.scalar(eng.field(ent, F("InputEntry", "changed")), "bool"))))
+                    sigref = eng.field(ent, F("InputEntry", "signal"))
+                    if sigref.target is None or sigref.target.fields[0].root != "name%d" % c:
+                        claims.append(z3.BoolVal(False))
+                    continue
+                b = bits[layout.sig_of_col[c]]
                 if kinds[c] == "N":
                     claims.append(z3.And(vt == T_V, vv == mask_ref(vals[c], b)))
                 elif kinds[c] == "Z":
@@ -309,9 +322,13 @@ def expansion_scenario(layout, kinds, values, widths, repeat=1):
     n = layout.n
     names = ["S%d" % layout.sig_of_col[c] for c in range(n)]            # header names by column
     sigs = []
-    for s in range(n):
+    hin = tuple(getattr(layout, "hidden_in_at", ()))
+    for s in range(n + len(hin)):
+        if s in hin:
+            sigs.append(("in", "HI%d" % s, 8, 0))
+            continue
         col = layout.sig_of_col.index(s)
-        w = widths[s] if 1 <= widths[s] <= 64 else 1
+        w = widths[s] if s < len(widths) and 1 <= widths[s] <= 64 else 1
         if layout.columns[col] == "in":
             sigs.append(("in", "S%d" % s, w, 0))
         else:
@@ -329,7 +346,9 @@ def expansion_scenario(layout, kinds, values, widths, repeat=1):
     ref = reference_expansion(kinds, layout)
 
     def w_of(c):
-        return widths[layout.sig_of_col[c]] if 1 <= widths[layout.sig_of_col[c]] <= 64 else 1
+        i = layout.sig_of_col[c]
+        return widths[i] if i < len(widths) and 1 <= widths[i] <= 64 else 1
+    in_order = [x[1:] for x in sorted([(layout.sig_of_col[c], "col", c) for c in layout.input_cols] + [(s_, "hid", s_) for s_ in hin])]
 
     def masked(c):
         w = w_of(c)
@@ -337,8 +356,8 @@ def expansion_scenario(layout, kinds, values, widths, repeat=1):
     row_inputs, row_expected = [], []
     for assign, clk, checked in ref:
         ins = []
-        for c in layout.input_cols:
-            ins.append({"N": masked(c), "Z": "Z", "X": str(assign.get(c, 0)), "C": str(clk)}[kinds[c]])
+        for k_, c in in_order:
+            ins.append("0" if k_ == "hid" else {"N": masked(c), "Z": "Z", "X": str(assign.get(c, 0)), "C": str(clk)}[kinds[c]])
         row_inputs.append(ins)
         if checked:
             row_expected.append([{"N": masked(c), "Z": "Z", "X": "X"}[kinds[c]] for c in layout.exp_cols] + ["X"] * nhid)
